@@ -144,7 +144,11 @@ def run_jobs(prop, jobs, seed, crash_is_violation, crash_class_codes=None, max_r
     """jobs: list of dict(unit, cases, maxlen, extra_args). Returns Result."""
     res = Result()
     work = scratch_dir(prop)
-    exes = D.ensure_built([j['unit'] for j in jobs])
+    exes = D.ensure_built([j['unit'] for j in jobs], tolerate=True)
+    for j in jobs:
+        if j['unit'].name not in exes:
+            res.inconclusive.append('%s: does not compile against this tree' % j['unit'].name)
+    jobs = [j for j in jobs if j['unit'].name in exes]
 
     def one(job):
         u = job['unit']
